@@ -61,8 +61,34 @@ def dict_order_observed(ref, what):
         raise PyRaise("unresolved-callee", f"{what} observes the insertion order of a mapping whose order the contract leaves unspecified")
 
 
-def new_obj(cls, attrs, frozen=False):
-    return Ref(cur().alloc(Content("obj", dict(attrs), {"frozen": frozen})), "obj", cls)
+def new_obj(cls, attrs, frozen=False, built_by_contract=True):      # contracts build input objects; the engine passes False
+    return Ref(cur().alloc(Content("obj", dict(attrs), {"frozen": frozen, "built_by_contract": built_by_contract})), "obj", cls)
+
+
+def declared_attributes(cls):
+    """names a real instance of the repo class carries: dataclass fields and every `self.<name>` assigned in a method"""
+    cache = getattr(cls, "_declared_attrs", None)
+    if cache is None:
+        cache = {f[0] for f in getattr(cls, "fields", [])}
+        for fn in getattr(cls, "methods", {}).values():
+            a = fn.args.posonlyargs + fn.args.args
+            if not a:
+                continue
+            me = a[0].arg
+            for n in ast.walk(fn):
+                tg = []
+                if isinstance(n, ast.Assign):
+                    tg = n.targets
+                elif isinstance(n, (ast.AugAssign, ast.AnnAssign)):
+                    tg = [n.target]
+                for t in tg:
+                    if isinstance(t, ast.Attribute) and isinstance(t.value, ast.Name) and t.value.id == me:
+                        cache.add(t.attr)
+        try:
+            cls._declared_attrs = cache
+        except Exception:  # noqa
+            pass
+    return cache
 
 
 class ModVal:
@@ -811,6 +837,11 @@ class Interp:
                     return FuncVal(cls.module, cls.methods[name], bound=obj, cls=cls)
                 if name in cls.class_attrs:
                     return self.eval(cls.class_attrs[name], Frame(cls.module, {}, cls.name))
+                # a symbolic INPUT object built by a contract may leave out attributes its unit's paths do not read; when the class
+                # declares the attribute (dataclass field, or `self.<name> = ...` in one of its methods) a real instance has it: the
+                # path stops at an engine limit (UNDECIDED, decided by the replay), it is not an AttributeError of the code
+                if cur().heap[obj.sid].meta.get("built_by_contract") and name in declared_attributes(cls):
+                    raise PyRaise("unresolved-callee", f"symbolic input object of class {cls.name} was built by the contract without its declared attribute {name!r}")
             raise PyRaise("AttributeError", f"{obj!r} has no attribute {name!r}")
         if isinstance(obj, ModVal):
             return self.lib.module_attr(self, obj, name)
@@ -1518,8 +1549,8 @@ class Interp:
                     if d is None:
                         raise PyRaise("TypeError", f"missing field {n}")
                     attrs[n] = self.eval(d, Frame(cls.module, {}, cls.name))
-            return new_obj(cls, attrs, frozen=cls.frozen)
-        obj = new_obj(cls, {}, frozen=False)
+            return new_obj(cls, attrs, frozen=cls.frozen, built_by_contract=False)
+        obj = new_obj(cls, {}, frozen=False, built_by_contract=False)
         if "__init__" in cls.methods:
             self.call_function(FuncVal(cls.module, cls.methods["__init__"], bound=obj, cls=cls), args, kwargs)
         return obj
